@@ -84,10 +84,15 @@ void PollPoller::updateChannel(Channel* channel)
     pfd.fd = channel->fd();
     pfd.events = static_cast<short>(channel->events());
     pfd.revents = 0;
+    if (channel->isNoneEvent())
+    {
+      // ignore this pollfd
+      pfd.fd = -channel->fd()-1;
+    }
     pollfds_.push_back(pfd);
     int idx = static_cast<int>(pollfds_.size())-1;
     channel->set_index(idx);
-    channels_[pfd.fd] = channel;
+    channels_[channel->fd()] = channel;
   }
   else
   {
